@@ -39,5 +39,15 @@ func VerifC01History() {
 		}
 		h.checkTip("")
 	}
+	if verifParam("suffix", 0) == 1 {
+		// a fixed tail after the symbolic steps: consolidate, persist, restart
+		err := h.repo.Clean(h.ctx)
+		verifAssert(err == nil, "clean-returns-error")
+		h.checkTip("after-clean:")
+		err = h.saveLoad()
+		verifAssert(err == nil, "save-load-returns-error")
+		h.checkTip("after-reload:")
+		verifReach("suffix-done")
+	}
 	verifReach("done")
 }
